@@ -171,12 +171,7 @@ func genOperand(r *rng) string {
 
 // genCmpExpr: C07 fragment
 func genCmpExpr(r *rng) string {
-	numOrSet := func() string {
-		if r.chance(1, 2) {
-			return genFlatPath(r)
-		}
-		return r.pick(append(numLits, "1 + 1", "0 div 0", "1 div 0", "-2", "count(*)"))
-	}
+	numExpr := func() string { return r.pick(append(numLits, "1 + 1", "0 div 0", "1 div 0", "-2", "count(*)")) }
 	strOrSet := func() string {
 		if r.chance(1, 2) {
 			return genFlatPath(r)
@@ -185,7 +180,18 @@ func genCmpExpr(r *rng) string {
 	}
 	switch r.intn(10) {
 	case 0, 1:
-		return numOrSet() + " " + r.pick(cmpOps) + " " + numOrSet()
+		// number op number, node-set op number, number op node-set (all six operators);
+		// node-set op node-set is in the fragment for = and != only
+		switch r.intn(4) {
+		case 0:
+			return numExpr() + " " + r.pick(cmpOps) + " " + numExpr()
+		case 1:
+			return genFlatPath(r) + " " + r.pick(cmpOps) + " " + numExpr()
+		case 2:
+			return numExpr() + " " + r.pick(cmpOps) + " " + genFlatPath(r)
+		default:
+			return genFlatPath(r) + " " + r.pick([]string{"=", "!="}) + " " + genFlatPath(r)
+		}
 	case 2, 3:
 		return strOrSet() + " " + r.pick([]string{"=", "!="}) + " " + strOrSet()
 	case 4:
@@ -292,7 +298,13 @@ var startLens = []string{"-9007199254740992", "-7", "-3", "-2", "-1.5", "-1", "-
 func genStrExpr(r *rng, depth int) string {
 	arg := func() string {
 		if depth > 0 && r.chance(1, 3) {
-			return genStrExpr(r, depth-1)
+			// only string-valued calls nest: the fragment is string-typed (or flat node-set) arguments
+			for {
+				e := genStrExpr(r, depth-1)
+				if !strings.HasPrefix(e, "contains(") && !strings.HasPrefix(e, "starts-with(") && !strings.HasPrefix(e, "ends-with(") && !strings.HasPrefix(e, "string-length(") {
+					return e
+				}
+			}
 		}
 		if r.chance(1, 4) {
 			return genFlatPath(r)
